@@ -164,6 +164,12 @@ class Corpus(object):
         for fi, stmt in self.stmts:
             for kd in mentioned_kinds(stmt):
                 self.rows.setdefault((fi, kd.upper()), []).append(stmt)
+        self.rops = {}              # (file index, KIND) -> CREATE ROP statements naming that class (statement indices)
+        for si, (fi, stmt) in enumerate(self.stmts):
+            for kd in mentioned_kinds(stmt, rop=True):
+                lst = self.rops.setdefault((fi, kd.upper()), [])
+                if si not in lst:
+                    lst.append(si)
         self.blocks = []
         start = 0
         while start < len(self.stmts):
@@ -408,6 +414,22 @@ class LoadFaultEngine(Engine):
                 if kd.upper() not in [q.upper() for q in kinds]:
                     kinds.append(kd)
         prefix = [t for t in (cp.table_for(fi, kd) for kd in kinds) if t]
+        # ... and the (intact) associations of those classes with the tables of their other ends, so that a damaged
+        # row meets referential attributes, links and cardinality checks when the loader builds
+        for kd in list(kinds):
+            for si in cp.rops.get((fi, kd.upper()), [])[:3]:
+                if start <= si < end:
+                    continue
+                others = [o for o in mentioned_kinds(cp.stmts[si][1], rop=True)]
+                tabs = [cp.table_for(fi, o) for o in others]
+                if not all(tabs):
+                    continue
+                for o, t in zip(others, tabs):
+                    if o.upper() not in [q.upper() for q in kinds]:
+                        kinds.append(o)
+                        prefix.append(t)
+                if cp.stmts[si][1] not in prefix:
+                    prefix.append(cp.stmts[si][1])
         # classes named by the associations of the block: their tables and a few of their rows, so that an
         # accepted (damaged) association is actually populated when the loader builds
         for si in range(start, end):
@@ -476,7 +498,7 @@ class LoadFaultEngine(Engine):
                                     'input-exception:%s' % type(e).__name__)
                 bump(probes, '%s_%s' % (op['k'], outcome))
                 dt = time.perf_counter() - t_in
-                if dt > cfg.get('slow_s', self.SLOW_S) and not metered:
+                if dt > cfg.get('slow_s', self.SLOW_S) * (2 if metered else 1):     # line metering slows python code down
                     raise Violation('stall', 'fault %r: input of %d characters took %.1f s of wall time (budget %.1f s)'
                                     % (op, len(chunk), dt, cfg.get('slow_s', self.SLOW_S)), 'stall:wall')
                 if outcome in ('rejected', 'ioerror'):
